@@ -94,7 +94,8 @@ Suffixes == {<<".c">>, <<".d">>, <<"#i">>, <<"[x]">>, <<":hover">>, <<"::before"
              <<"-x">>, <<".c", ".d">>, <<".c", ":hover">>}
 
 Q24(z) == SelQ(z)
-  \cup {Q("unify", i, j, USeq[i], USeq[j], E, E, "str", "str") : i \in 1..N, j \in 1..N}
+  (* the unify law is symmetric in its operands: unordered pairs *)
+  \cup {Q("unify", p[1], p[2], USeq[p[1]], USeq[p[2]], E, E, "str", "str") : p \in {p \in (1..N) \X (1..N) : p[1] <= p[2]}}
   \cup {Q("extend", i, 0, USeq[i], E, x, y, "str", "str") : i \in 1..N, x \in XPool, y \in YPool}
   \cup {Q("replace", i, 0, USeq[i], E, x, y, "str", "str") : i \in 1..N, x \in XPool, y \in YPool}
   \cup {Q("nest", i, 0, USeq[i], b, E, E, "str", "str") : i \in 1..N, b \in NestPool}
